@@ -1,0 +1,91 @@
+package ast
+
+import "fmt"
+
+// Validate checks that a type is well-formed: the definition matching its kind
+// is present, recursively. It is meant for types that are written by hand
+// (in configuration files, for example) rather than produced by a parser.
+func (t Type) Validate() error {
+	missing := func() error {
+		return fmt.Errorf("type of kind '%s' has no '%s' definition", t.Kind, t.Kind)
+	}
+
+	switch t.Kind {
+	case KindDisjunction:
+		if t.Disjunction == nil {
+			return missing()
+		}
+		for i, branch := range t.Disjunction.Branches {
+			if err := branch.Validate(); err != nil {
+				return fmt.Errorf("disjunction branch %d: %w", i, err)
+			}
+		}
+	case KindIntersection:
+		if t.Intersection == nil {
+			return missing()
+		}
+		for i, branch := range t.Intersection.Branches {
+			if err := branch.Validate(); err != nil {
+				return fmt.Errorf("intersection branch %d: %w", i, err)
+			}
+		}
+	case KindArray:
+		if t.Array == nil {
+			return missing()
+		}
+		if err := t.Array.ValueType.Validate(); err != nil {
+			return fmt.Errorf("array value: %w", err)
+		}
+	case KindMap:
+		if t.Map == nil {
+			return missing()
+		}
+		if err := t.Map.IndexType.Validate(); err != nil {
+			return fmt.Errorf("map index: %w", err)
+		}
+		if err := t.Map.ValueType.Validate(); err != nil {
+			return fmt.Errorf("map value: %w", err)
+		}
+	case KindStruct:
+		if t.Struct == nil {
+			return missing()
+		}
+		for _, field := range t.Struct.Fields {
+			if err := field.Type.Validate(); err != nil {
+				return fmt.Errorf("field '%s': %w", field.Name, err)
+			}
+		}
+	case KindEnum:
+		if t.Enum == nil {
+			return missing()
+		}
+		if len(t.Enum.Values) == 0 {
+			return fmt.Errorf("enum has no values")
+		}
+		for _, value := range t.Enum.Values {
+			if err := value.Type.Validate(); err != nil {
+				return fmt.Errorf("enum value '%s': %w", value.Name, err)
+			}
+		}
+	case KindRef:
+		if t.Ref == nil {
+			return missing()
+		}
+	case KindConstantRef:
+		if t.ConstantReference == nil {
+			return missing()
+		}
+	case KindScalar:
+		if t.Scalar == nil {
+			return missing()
+		}
+	case KindComposableSlot:
+		if t.ComposableSlot == nil {
+			return missing()
+		}
+	default:
+		return fmt.Errorf("unknown type kind '%s'", t.Kind)
+	}
+
+	return nil
+}
